@@ -176,7 +176,7 @@ fn record() -> BoxedStrategy<RDict> {
 }
 
 pub fn fcase(depth: u32) -> BoxedStrategy<FCase> {
-    let inj = prop::collection::vec((any::<u16>(), 0u8..9, any::<u16>()), 0..5);
+    let inj = prop::collection::vec((any::<u16>(), 0u8..12, any::<u16>()), 0..5);
     bx((filter_or(depth, true), prop::collection::vec(record(), 1..4), inj, prop::collection::vec((0usize..4, record()), 0..4), super::c04::choices()).prop_map(|(filter, mut records, inj, store, choices)| {
         // make comparisons land near their literal: derive tag values from the filter's own terms
         let mut cmps: Vec<(Vec<String>, RVal)> = vec![];
@@ -199,6 +199,10 @@ pub fn fcase(depth: u32) -> BoxedStrategy<FCase> {
                     5 => Some(RVal::Null),
                     6 => Some(RVal::List(vec![RVal::Marker, lit.clone()])),
                     7 => Some(RVal::List(vec![bump(lit, true), RVal::Str("q".into())])),
+                    // same kind as a Number literal but not ordered relative to it / at the ends of the order
+                    9 => Some(RVal::num(f64::NAN)),
+                    10 => Some(RVal::List(vec![RVal::num(f64::NAN), bump(lit, false)])),
+                    11 => Some(RVal::num(if sel % 2 == 0 { f64::INFINITY } else { f64::NEG_INFINITY })),
                     _ => Some(RVal::num(5.0)),
                 };
                 set_path(&mut records[r], p, v);
@@ -410,6 +414,8 @@ fn universe_value(i: usize) -> Option<RVal> {
         3 => Some(RVal::Str("x".into())),
         4 => Some(RVal::Bool(true)),
         5 => Some(RVal::Ref("r".into(), None)),
+        // a Number that is not ordered relative to any literal (seeded change C07-d: Value-level `>` through the total order)
+        6 => Some(RVal::num(f64::NAN)),
         _ => Some(RVal::List(vec![RVal::num(1.0), RVal::Str("x".into())])),
     }
 }
@@ -428,10 +434,10 @@ fn enumerate(ctx: &mut Ctx) {
         }
     }
     let mut records: Vec<RDict> = vec![];
-    for i in 0..7usize.pow(3) {
+    for i in 0..8usize.pow(3) {
         let mut r = RDict::new();
         for (k, n) in names.iter().enumerate() {
-            if let Some(v) = universe_value((i / 7usize.pow(k as u32)) % 7) {
+            if let Some(v) = universe_value((i / 8usize.pow(k as u32)) % 8) {
                 r.insert(n.to_string(), v);
             }
         }
@@ -531,7 +537,7 @@ fn enumerate(ctx: &mut Ctx) {
 }
 
 pub fn run(ctx: &mut Ctx) {
-    ctx.rule("generated: (filter AST with every term kind, every literal kind the syntax admits, paths of 1-4 segments, and/or/paren nesting; 1-3 records whose tags are steered near the filter's literals: equal, just above, just below, other kind, missing, Null, list containing / not containing it, nested dicts; a small ref store with cycles) - the libhaystack Filter is built from the AST through the public node fields (and also through text -> parser); oracle: a direct evaluator of the statement (Tri-valued: comparisons of Numbers with different units are left open and only counted); grids: filter_all returns exactly the accepted rows in order, filter the first; exhaustive slice: all filters of size <= 2 (and, for a reduced term set, size 3 in all four and/or/paren shapes) over names {a,b,c}, literals {1, 2m, \"x\", true, @r}, all six operators against all 343 records over a 7-value universe; non-trivial: filter has a comparison, `not` or `->` and some path resolves; distinct by (filter text, record)");
+    ctx.rule("generated: (filter AST with every term kind, every literal kind the syntax admits, paths of 1-4 segments, and/or/paren nesting; 1-3 records whose tags are steered near the filter's literals: equal, just above, just below, other kind, missing, Null, NaN, +-INF, list containing / not containing it, nested dicts; a small ref store with cycles) - the libhaystack Filter is built from the AST through the public node fields (and also through text -> parser); oracle: a direct evaluator of the statement (Tri-valued: comparisons of Numbers with different units are left open and only counted); grids: filter_all returns exactly the accepted rows in order, filter the first; exhaustive slice: all filters of size <= 2 (and, for a reduced term set, size 3 in all four and/or/paren shapes) over names {a,b,c}, literals {1, 2m, \"x\", true, @r}, all six operators against all 512 records over an 8-value universe (absent, 1, 2m, \"x\", true, @r, NaN, [1,\"x\"]); non-trivial: filter has a comparison, `not` or `->` and some path resolves; distinct by (filter text, record)");
     ctx.assume("Ref equality ignores the display name and timestamps compare by instant (Haystack semantics); ^symbol / relationship terms are decided by C13 and evaluate to false against the empty default namespace");
     enumerate(ctx);
     let depth = ctx.tier.pick(2, 3) as u32;
